@@ -267,6 +267,13 @@ func (p *Pipeline) reload(previousGeneration *Pipeline) {
 		var prev filters.Filter
 		if previousGeneration != nil {
 			prev = previousGeneration.getFilter(spec.Name())
+			// a filter of the previous generation with the same name but of
+			// another kind is another filter: there is nothing to inherit
+			// from it (and Inherit implementations type-assert their
+			// argument), the previous generation's Close still closes it.
+			if prev != nil && prev.Kind().Name != spec.Kind() {
+				prev = nil
+			}
 		}
 		if prev == nil {
 			filter.Init()
